@@ -190,6 +190,10 @@ func c17Bundled(r *Rng, viol func(kind, what string, ops []string, _ any), count
 		}
 		count("receiver-bundled-rounds")
 	}
+	waitFor(3*time.Second, func() bool {
+		_, err := os.Stat(filepath.Join(dir, chName, "manifest_timeline_nr.mpd"))
+		return err == nil
+	})
 	if _, err := os.Stat(filepath.Join(dir, chName, "manifest_timeline_nr.mpd")); err != nil && n >= 4 {
 		viol("mpd-stale", fmt.Sprintf("no timeline MPD after %d complete rounds", n), []string{tag}, nil)
 	}
